@@ -17,6 +17,8 @@ CLAIMED = {
   "Universal Coq theorems over arbitrary graphs: find_head is sound and complete; headers/entries and exiting/exits equal their set definitions and come out sorted (line-by-line models); reference reachability (>=1 edge), dominance in both directions and strongly connected components equal their path-based definitions. The implementation's answers (find_head, both subset queries for all subsets, is_reachable_dfs for all pairs, _doms, _post_doms, compute_scc) are compared with these on ALL graphs with <=3 nodes/out-degree 2 and on random graphs up to 30 nodes."),
  "C14": ("proof", "5 (C14)", "Coq proofs over line-by-line models of the edit primitives; order-exact correspondence; verified checker for control-block arcs",
   "Universal Coq theorems over the line-by-line models: insert_block's successor rewrite keeps the order of remaining successors, removes every arc into S and adds the new block exactly once; only predecessors change, back edges untouched, the new block has exactly the successors S; join_returns is a no-op with at most one exit and otherwise adds one exit reached from every former exit. The control-block variant is decided per result by the verified checker cb_ok (each rerouted arc has its own assignment block; the head's table leads to the arc's original target). All four primitives are compared order-exactly (incl. KeyError/AssertionError) with the implementation over all small graphs x all (P,S). Path preservation under arbitrary sequences of edits is not proved (per-run by C01)."),
+ "C16": ("proof", "5 (C16)", "Coq proof of the breadth-first iterator model for arbitrary graphs; order-exact correspondence on every (sub)graph of every stage",
+  "Universal Coq theorems (any graph, any successor function, no bound on size): the breadth-first iterator with the code's queue discipline terminates, yields the head first, no item twice, only items of the level, everything reachable, and every other item after one of its predecessors; so the region-concealing view is a permutation of the graph's own items and SCFG.__iter__ a permutation of all descendants whenever each level is connected from its head - a hypothesis evaluated per instance. The model's lists equal the implementation's, order included, for every sub-region at every depth after every stage."),
  "C18": ("proof", "5 (C18)", "Coq proof over a model of NameGenerator translated from source; exact correspondence on recorded histories",
   "Universal Coq theorems over the NameGenerator model: joint injectivity of the three name templates for arbitrary kind strings, pairwise distinctness for any request interleaving from any generator state, parse(render)=id, Covers after reserve, and C18_request_fresh: after ANY history of SCFG constructions, add_block calls and requests a requested name is neither present nor handed out before. Templates, counter discipline, the regular expression, reserve_names and its call sites are re-translated from scfg.py on every run (fail-closed); model and implementation agree exactly on recorded histories."),
 }
